@@ -401,3 +401,23 @@ Fixpoint rows_equal (c : cfg) (rows : list brow) (bs : list bobj) : bool :=
   | r :: rr, b :: br => row_eqb r (norm c (cur b)) && rows_equal c rr br
   | _, _ => false
   end.
+
+(** ---- several converging cycles (the timestamp filter of a scan is cut at 149) ---- *)
+
+(** the timestamps a full scan with window start [from] collects *)
+Definition miss_of (c : cfg) (from : Z) (t : tbl) : list Z :=
+  missing ((0 <? from) && negb (stampful c)) (from - c_off c) (t_c t) (t_b t).
+
+(** a cycle on a quiet backend whose full scan is due (no condition on the size of the filter) *)
+Definition cyc_ok (c : cfg) (until now : Z) (t : tbl) : bool :=
+  forallb (fun o => (stampcol c (cur o) <? until - c_off c) && (0 <=? r_lc (cur o))) (t_b t) && scan_due now t.
+
+(** [cs]: (from, until) of consecutive complete UpdateDelta calls *)
+Fixpoint run_cycles (c : cfg) (s : st) (cs : list (Z * Z)) : st :=
+  match cs with [] => s | (f, u) :: r => run_cycles c (step c s (EDelta f u AbNo)) r end.
+
+Fixpoint cycles_ok (c : cfg) (s : st) (cs : list (Z * Z)) : bool :=
+  match cs with
+  | [] => true
+  | (f, u) :: r => cyc_ok c u u (hosts s) && cyc_ok c u u (svcs s) && cycles_ok c (step c s (EDelta f u AbNo)) r
+  end.
